@@ -236,6 +236,17 @@ def spec_strings(v):
     return []
 
 
+def replace_null(v):
+    (k, x), = v.items()
+    if k == "z":
+        return {"s": "was-null"}
+    if k == "a":
+        return {"a": [replace_null(e) for e in x]}
+    if k == "r":
+        return {"r": [[kk, replace_null(e)] for kk, e in x]}
+    return v
+
+
 def replace_lsps(v):
     (k, x), = v.items()
     f = lambda t: t.replace("\u2028", "x").replace("\u2029", "x")
@@ -355,7 +366,7 @@ def lsps_norm(s):
 
 
 class Classifier:
-    """Maps one failing oracle token to a stable finding key, or None (= unknown: a violation)."""
+    """Maps one failing oracle token to the stable key of a known finding, or None (= a violation)."""
 
     def __init__(self, model_ys):
         self.model_ys = model_ys   # function: string -> (resolution tuple, ns, ov)
@@ -366,43 +377,25 @@ class Classifier:
         if len(parts) != 3:
             return None
         path, orig, got = parts
-        if fmt == "yaml" and oracle in ("des", "imp", "ev", "conv") and orig.startswith("keys(") and got.startswith("keys("):
+        if fmt != "yaml" or oracle not in ("des", "imp", "ev", "conv", "docs"):
+            return None
+        if orig.startswith("keys(") and got.startswith("keys("):
             ko, kg = [uncps(k) for k in orig[5:-1].split(",")], [uncps(k) for k in got[5:-1].split(",")]
             if sorted(lsps_norm(k) for k in ko) == sorted(lsps_norm(k) for k in kg) and any(has_lsps(k) for k in ko):
                 return "yaml-ls-ps-string"
             return None
-        if fmt == "yaml" and orig.startswith("s") and got.startswith("s") and oracle in ("des", "imp", "ev", "conv"):
+        if orig.startswith("s") and got.startswith("s"):
             so, sg = uncps(orig[1:]), uncps(got[1:])
             if has_lsps(so) and so != sg and lsps_norm(so) == lsps_norm(sg):
                 return "yaml-ls-ps-string"
-        if fmt == "yaml" and orig.startswith("s") and oracle in ("des", "imp", "ev", "conv"):
-            s = uncps(orig[1:])
-            res, ns, ov = self.model_ys(s)
-            if ns and res[0] == "N" and got.startswith("#") and Fraction(got[1:]) == res[1]:
-                if ov:
-                    return "yaml-float-overflow-string"
-                if s.startswith("0x") or s.startswith("0o"):
-                    return "yaml-radix-sign-string"
-                if s.startswith("+"):
-                    return "yaml-double-sign-string"
-            return None
-        if fmt == "toml" and oracle in ("imp", "conv") and orig.startswith("#") and got.startswith("#"):
-            a, b = Fraction(orig[1:]), Fraction(got[1:])
-            if a.denominator != 1 and b == Fraction(float(a)) and b != a:
-                return "toml-import-float-exact"
-            return None
         return None
 
 
 KNOWN_TEXT = {
-    "yaml-float-overflow-string": "YAML only: a string spelled as a decimal/scientific number whose magnitude overflows f64 (e.g. \"1e400\") is written unquoted and read back as a Number",
-    "yaml-radix-sign-string": "YAML only: strings like \"0x-5\" / \"0o+7\" are written unquoted and read back as Numbers (i64::from_str_radix accepts a sign after the radix prefix)",
-    "yaml-double-sign-string": "YAML only: strings like \"++5\" / \"+-5\" are written unquoted and read back as Numbers (strip '+' then i64 parse accepts a second sign)",
     "yaml-ls-ps-string": "YAML only: a string or key containing U+2028/U+2029 comes back with spaces inserted after them (the YAML 1.1 emitter breaks the line there and indents, the YAML 1.2 loader keeps both)",
+    "yamldocuments-null": "exporting to 'YamlDocuments rejects null values (serialize::validate allows null for Json and Yaml only) although plain YAML export accepts them",
     "json-duplicate-keys": "a JSON object with a duplicate key is read differently by the two JSON loaders: std.deserialize 'Json (serde) keeps the last value, importing the file (event loader) keeps both definitions and merges them (error for different scalars)",
     "toml-datetime-deserialize": "std.deserialize 'Toml turns a TOML datetime into the record { \"$__toml_private_datetime\" = \"..\" } (the toml crate's private serde representation) while importing the same file gives the string",
-    "toml-import-inf-nan-panic": "importing a TOML file containing inf/nan panics (Rational::exact_from of a non-finite float) while std.deserialize 'Toml reports an error",
-    "toml-import-float-exact": "importing a TOML file turns a float into the exact binary expansion of the f64 (Rational::exact_from) while std.deserialize 'Toml and the other formats give the shortest decimal: 0.1 imported from TOML is not 0.1",
 }
 
 
@@ -658,7 +651,7 @@ def check_ints(ck, R, ints):
         else:
             if fy.get("T") != fx.get("T"):
                 corr_fail(ck, "int_token", case, x, y)
-            for tag_m, tags_i in (("Y", ["Y", "JL"]), ("J", ["J"]), ("M", ["M"])):
+            for tag_m, tags_i in (("Y", ["Y"]), ("JL", ["JL"]), ("J", ["J"]), ("M", ["M"])):
                 pm = parse_model_sres(fy.get(tag_m, "?"))
                 for ti in tags_i:
                     if ti == "M" and fy.get("M") == "E":
@@ -696,11 +689,7 @@ def check_decimal_grid(ck, R, quick, rng):
         mi = fx.get("MI", "")
         want = "N:%s" % (str(q.numerator) if q.denominator == 1 else "%d/%d" % (q.numerator, q.denominator))
         if mi != want:
-            got = Fraction(mi[2:]) if mi.startswith("N:") else None
-            if got is not None and q.denominator != 1 and got == Fraction(float(q)):
-                ck.violation("toml-import-float-exact", KNOWN_TEXT["toml-import-float-exact"], {"case": case, "q": str(q), "impl": x})
-            else:
-                ck.violation("decimal:MI", "TOML import of a short decimal", {"case": case, "q": str(q), "impl": x})
+            ck.violation("decimal:MI", "a short decimal imported from a TOML file is not the same rational", {"case": case, "q": str(q), "impl": x})
     ck.count("decimal_grid_cases", len(cases))
     ck.coverage["decimal_grid"] = "%d decimals compared as exact rationals through JSON (serde + event loader), YAML, TOML (serde + import)" % len(cases)
 
@@ -773,15 +762,9 @@ def check_yaml_scalars(ck, R, rng, quick, strs):
         if ri != ("S:" + cps(s),):
             # direct oracle: the string did not come back
             key = None
-            if st == "plain" and mf.get("ns") == "1" and rm[0] == "N":
-                if mf.get("ov") == "1":
-                    key = "yaml-float-overflow-string"
-                elif s.startswith("0x") or s.startswith("0o"):
-                    key = "yaml-radix-sign-string"
-                elif s.startswith("+"):
-                    key = "yaml-double-sign-string"
-            ck.hist("emitter_contract_breach", key or "unclassified")
-            ck.violation(key or ("yaml-string:" + s[:20]), KNOWN_TEXT.get(key, "a string does not survive YAML export/import"),
+            ck.hist("emitter_contract_breach", "plain non-string spelling" if (st == "plain" and mf.get("ns") == "1") else "other")
+            ck.violation("yaml-string:" + s[:20], "a string does not survive YAML export/import" +
+                         (": the emitter writes it as a plain scalar that the loader reads as a non-string" if st == "plain" else ""),
                          {"case": case, "string": s, "impl": x, "model": y,
                           "nickel": "std.deserialize 'Yaml (std.serialize 'Yaml %s)" % json.dumps(s)})
 
@@ -794,7 +777,7 @@ def check_yaml_scalars(ck, R, rng, quick, strs):
     return Classifier(model_ys)
 
 
-ORACLES = ["des", "fix", "imp", "ev", "evser", "conv"]
+ORACLES = ["des", "fix", "imp", "ev", "evser", "conv", "docs"]
 
 
 def check_values(ck, R, rng, quick, tables, clf, corpus):
@@ -805,6 +788,7 @@ def check_values(ck, R, rng, quick, tables, clf, corpus):
         specs.append(gen_value(rng, rng.range(1, 5), tables, toml_ok, top=True))
     cases = ["val\t" + json.dumps(s, ensure_ascii=True, separators=(",", ":")) for s in specs]
     recheck = []     # (case, fmt, oracle, result): YAML errors on values containing U+2028/U+2029
+    nonull = []      # 'YamlDocuments export failed and the value contains a null
     deep = []
     for d in ([5, 20, 60, 100, 127, 128, 200] if quick else [5, 20, 40, 60, 70, 80, 90, 100, 120, 126, 127, 128, 129, 200, 400, 1000]):
         for leaf in ({"s": "%{x}\"\\"}, {"n": "1/10"}, {"a": []}):
@@ -844,7 +828,7 @@ def check_values(ck, R, rng, quick, tables, clf, corpus):
             for o in ORACLES:
                 r = per.get("%s.%s" % (fmt, o))
                 if r is None:
-                    if o != "fix":
+                    if o not in ("fix", "docs"):
                         fails.append((o, "missing", None))
                     continue
                 if r == "ok":
@@ -852,6 +836,10 @@ def check_values(ck, R, rng, quick, tables, clf, corpus):
                     continue
                 ck.count("oracle_fail:%s.%s" % (fmt, o))
                 payload = r[r.index("(") + 1:-1] if "(" in r else r
+                if o == "docs" and r.startswith("ERR(Serialization") and "\"z\":0" in case:
+                    # the only accepted reason: a null somewhere in the array (checked again without nulls below)
+                    nonull.append((spec, case))
+                    continue
                 if depth is not None and depth >= 60 and r.startswith("ERR(") and fmt in ("json", "toml") and \
                         ("recursion_limit" in r or (fmt == "toml" and depth >= 80) or (fmt == "json" and depth >= 126 and "Deserialization" in r)):
                     # the external parsers' nesting limits (serde_json: 128, toml: about 80): an error, not a wrong value
@@ -862,7 +850,7 @@ def check_values(ck, R, rng, quick, tables, clf, corpus):
                 if key:
                     keys_here.add(key)
                 fails.append((o, r, key))
-            if fmt == "yaml" and any(key is None and r.startswith("ERR(") and o in ("des", "imp", "ev", "conv") for o, r, key in fails) and any(has_lsps(t) for t in ("deep" not in spec and spec_strings(spec) or [])):
+            if fmt == "yaml" and any(key is None and r.startswith("ERR(") and o in ("des", "imp", "ev", "conv", "docs") for o, r, key in fails) and any(has_lsps(t) for t in ("deep" not in spec and spec_strings(spec) or [])):
                 for o, r, key in fails:
                     recheck.append((spec, case, fmt, o, r))
                 continue
@@ -878,6 +866,18 @@ def check_values(ck, R, rng, quick, tables, clf, corpus):
                     ck.violation(key, KNOWN_TEXT[key], replay)
                 else:
                     ck.violation("roundtrip:%s.%s:%s" % (fmt, o, r[:40]), "round trip through %s fails (%s)" % (fmt, o), replay)
+    # second pass for 'YamlDocuments: the same value with every null replaced must serialise
+    if nonull:
+        c2 = ["val\t" + json.dumps(replace_null(sp), ensure_ascii=True, separators=(",", ":")) for sp, _ in nonull]
+        a2 = R.impl_only(c2)
+        for (sp, case), x2 in zip(nonull, a2):
+            per2 = dict(f.split("=", 1) for f in x2.split("\t") if "=" in f)
+            nfail += 1
+            r2 = per2.get("yaml.docs", "?")
+            if r2 == "ok" or (r2.startswith("DIFF(") and clf.classify("yaml", "docs", r2[5:-1])):
+                ck.violation("yamldocuments-null", KNOWN_TEXT["yamldocuments-null"], {"case": case + "\tdetail", "oracle": "docs"})
+            else:
+                ck.violation("roundtrip:yaml.docs:" + r2[:40], "round trip through 'YamlDocuments fails", {"case": case + "\tdetail", "without_null": r2[:300]})
     # second pass: is U+2028/U+2029 the only reason?  replace them and run the oracles again
     if recheck:
         uniq = {}
@@ -887,7 +887,7 @@ def check_values(ck, R, rng, quick, tables, clf, corpus):
         a2 = dict(zip(uniq.keys(), R.impl_only(c2)))
         for spec, case, fmt, o, r in recheck:
             per2 = dict(f.split("=", 1) for f in a2[case].split("\t") if "=" in f)
-            clean = all(per2.get("yaml." + oo, "ok") == "ok" or clf.classify("yaml", oo, per2["yaml." + oo][per2["yaml." + oo].index("(") + 1:-1] if "(" in per2["yaml." + oo] else "") for oo in ("des", "imp", "ev", "conv"))
+            clean = all(per2.get("yaml." + oo, "ok") == "ok" or clf.classify("yaml", oo, per2["yaml." + oo][per2["yaml." + oo].index("(") + 1:-1] if "(" in per2["yaml." + oo] else "") for oo in ("des", "imp", "ev", "conv", "docs"))
             nfail += 1
             replay = {"case": case + "\tdetail", "format": fmt, "oracle": o, "result": r[:400]}
             if clean:
@@ -1053,6 +1053,113 @@ MALFORMED_YAML = ["a: &x 1\nb: *x\n", "a: &x [1, 2]\nb: *x\n", "&a [*a]\n", "a: 
                   "a:\tb\n", "a: [1, 2\n", "a: {b: 1, c}\n", "a: b: c\n", "- - - 1\n", "a: 12:30:00\n", "a: 2001-12-14\n", "a: yes\nb: No\nc: on\n", "a: ~\nb:\n",
                   "%YAML 1.1\n---\na: 1\n", "\ufeffa: 1\n", "a: \u00851\n", "a: \"\u2028\"\n", "<<: {a: 1}\nb: 2\n", "a: &x {b: *x}\n", "- &a\n  - *a\n",
                   "a: 0.1\nb: 1.5e3\nc: -0\nd: 007\ne: 0x\n", "a: 123456789012345678901234567890\n", "a: 18446744073709551615\n", "a: -9223372036854775809\n"]
+
+
+def parse_show(s):
+    """harness show_tree -> python value (Fractions for numbers, ("?", text) for anything else)"""
+    pos = 0
+
+    def val():
+        nonlocal pos
+        c = s[pos]
+        if c == "[":
+            pos += 1
+            out = []
+            while s[pos] != "]":
+                out.append(val())
+                if s[pos] == ",":
+                    pos += 1
+            pos += 1
+            return out
+        if c == "{":
+            pos += 1
+            out = {}
+            while s[pos] != "}":
+                j = s.index(":", pos)
+                k = s[pos:j]
+                pos = j + 1
+                out[k] = val()
+                if s[pos] == ",":
+                    pos += 1
+            pos += 1
+            return out
+        j = pos
+        while j < len(s) and s[j] not in ",]}":
+            j += 1
+        tok = s[pos:j]
+        pos = j
+        if tok == "null":
+            return None
+        if tok in ("true", "false"):
+            return tok == "true"
+        if tok.startswith("#"):
+            return Fraction(tok[1:])
+        if tok.startswith("s"):
+            return ("s", tok[1:])
+        return ("?", tok)
+    try:
+        v = val()
+        return v if pos == len(s) else ("?", s)
+    except (ValueError, IndexError):
+        return ("?", s)
+
+
+def narrow_decimal(q):
+    """is the rational one of the short decimals of the statement (<= 4 significant digits, exponent -6..6)
+    or an integer of the 64-bit range?"""
+    q = Fraction(q)
+    if q.denominator == 1:
+        return -2 ** 63 <= q.numerator < 2 ** 64
+    try:
+        d = Fraction(repr(float(q)))
+    except (OverflowError, ValueError):
+        return False
+    if d != q:
+        return False
+    m, e = abs(d.numerator), 0
+    den = d.denominator
+    while den % 10 == 0:
+        den //= 10
+        e -= 1
+    if den != 1:
+        # scale to an integer mantissa
+        k = 0
+        while (d * 10 ** k).denominator != 1:
+            k += 1
+            if k > 400:
+                return False
+        m, e = abs((d * 10 ** k).numerator), -k
+    while m % 10 == 0 and m:
+        m //= 10
+        e += 1
+    return m < 10 ** 4 and -6 <= e <= 6
+
+
+def differ_only_beyond_scope(a, b):
+    """two values that are equal except at number leaves that are outside the statement's number scope
+    (neither a <=4-digit decimal with exponent -6..6 nor a 64-bit integer)"""
+    if isinstance(a, Fraction) and isinstance(b, Fraction):
+        if a == b:
+            return True
+        return not (narrow_decimal(a) or narrow_decimal(b))
+    if isinstance(a, list) and isinstance(b, list):
+        return len(a) == len(b) and all(differ_only_beyond_scope(x, y) for x, y in zip(a, b))
+    if isinstance(a, dict) and isinstance(b, dict):
+        return a.keys() == b.keys() and all(differ_only_beyond_scope(a[k], b[k]) for k in a)
+    return a == b
+
+
+def same_f64(a, b):
+    if isinstance(a, Fraction) and isinstance(b, Fraction):
+        try:
+            return float(a) == float(b)
+        except OverflowError:
+            return False
+    if isinstance(a, list) and isinstance(b, list):
+        return len(a) == len(b) and all(same_f64(x, y) for x, y in zip(a, b))
+    if isinstance(a, dict) and isinstance(b, dict):
+        return a.keys() == b.keys() and all(same_f64(a[k], b[k]) for k in a)
+    return a == b
 
 
 class _Tok(str):
@@ -1227,11 +1334,7 @@ def check_documents(ck, R, rng, quick, clf, corpus):
         ck.case(key=case, nontrivial=True)
         ck.hist("document_stream", ("in-scope:" if inscope else "foreign/malformed:") + fmt)
         if x.startswith("PANIC") or x == "<missing>":
-            import re
-            if fmt == "toml" and re.search(r"=\s*[+-]?(inf|nan)\b", text):
-                ck.violation("toml-import-inf-nan-panic", KNOWN_TEXT["toml-import-inf-nan-panic"], {"case": case, "text": text, "impl": x})
-            else:
-                ck.violation("doc-panic:" + fmt, "a loader panics on a document", {"case": case, "text": text, "impl": x})
+            ck.violation("doc-panic:" + fmt, "a loader panics on a document", {"case": case, "text": text, "impl": x})
             continue
         per = dict(f.split("=", 1) for f in x.split("\t"))
         asyaml = per.pop("asyaml", None)
@@ -1276,7 +1379,12 @@ def check_documents(ck, R, rng, quick, clf, corpus):
             continue
         # foreign document on which the loaders disagree: why?
         why = None
-        if fmt == "json":
+        trees = [parse_show(r) for r in vals.values() if not r.startswith("ERR(")]
+        if len(trees) == len(vals) and all(differ_only_beyond_scope(trees[0], t) for t in trees[1:]):
+            same = all(same_f64(trees[0], t) for t in trees[1:])
+            why = "obs:numbers outside the stated scope (not a <=4-digit decimal with exponent -6..6, not a 64-bit integer): " + \
+                  ("loaders agree up to f64 rounding" if same else "loaders differ even as f64 (convert prints non-decimal rationals with 16 significant digits)")
+        elif fmt == "json":
             try:
                 tree = json_strict(text)
                 facts = json_facts(tree, set())
@@ -1296,8 +1404,6 @@ def check_documents(ck, R, rng, quick, clf, corpus):
                 why = "obs:TOML integer beyond i64 accepted by the serde path (toml::from_str) only"
             elif "datetime" in facts:
                 why = "toml-datetime-deserialize"
-            elif "float" in facts:
-                why = "toml-import-float-exact"
         elif fmt == "yaml":
             if all("Budget" in r or "InfiniteRec" in r for r in vals.values() if r.startswith("ERR(")) and len(set(r for r in vals.values() if not r.startswith("ERR("))) <= 1 and \
                     any("Budget" in r for r in vals.values()):
@@ -1330,12 +1436,8 @@ def classify_doc_disagreement(fmt, loader, want, got, v):
         wv, gv = w.split(":")[-1], g.split(":")[-1]
         if w.split(":")[:-1] != g.split(":")[:-1] or not wv.startswith("#") or not gv.startswith("#"):
             return None
-        p, q = Fraction(wv[1:]), Fraction(gv[1:])
-        if fmt == "toml" and loader in ("imp", "conv") and p.denominator != 1 and q == Fraction(float(p)):
-            keys.add("toml-import-float-exact")
-        else:
-            return None
-    return sorted(keys)[0] if len(keys) == 1 else None
+        return None
+    return None
 
 
 def replay(ck, path):
